@@ -1,5 +1,5 @@
-"""End to end: from FILE TEXT to the report, inside the model (x86) -- driver op `e2e.x86`
-(lean/OsacaVerif/Model/EndToEnd.lean: parse_file -> operand roles -> lookup / load-store composition / uniform
+"""End to end: from FILE TEXT to the report, inside the model (x86 and AArch64) -- driver ops `e2e.x86` / `e2e.a64`
+(lean/OsacaVerif/Model/EndToEnd.lean, `analyse isa`: parse_file -> operand roles -> lookup / load-store composition / uniform
 pressure -> register changes -> selection -> graph -> critical path -> LCD -> column sums -> report text)
 against the real command-line path `create_parser -> check_arguments -> run` under `--fixed --lcd-timeout -1`.
 
@@ -15,6 +15,14 @@ critical path total and marks; the LCD dictionary; column sums (1e-9); and the r
 (b) shipped x86 models restricted to the entries the file can reach (the forms whose name is a mnemonic of the file
     or its fall-back spelling).
 
+AArch64 half (`e2e.a64`, `analyseA64`): the same comparison on
+(c) synthetic AArch64 models (c07models.random_model "aarch64" + forms for the mnemonics of dgenc.gen_a64_kernel: register
+    forms that the load/store composition completes, own memory entries with and without pre-/post-index), installed as
+    user model `a72` in the private HOME for the duration of the runs; kernels with pre-/post-indexed memory operands,
+    register lists and ranges, condition codes, prefetch operands, unknown mnemonics, noise lines; AArch64 byte markers
+    (`mov x1, #111` + `.byte 213,3,32,31`) and comment markers, `--lines`, `-f`/`--consider-flag-deps`, +- `--ignore-unknown`;
+(d) shipped AArch64 models (tx2, a64fx) restricted to the reachable entries.
+
 A disagreement is `ctx.correspondence_break("e2e", detail)`.
 """
 import io
@@ -29,8 +37,13 @@ from harness import core, dgenc, pipeline, pressure
 from harness.core import esc
 
 SYN_ARCH = "skx"           # an x86 arch code whose shipped file is empty in this tree: free for a user model
+SYN_ARCH_A64 = "a72"       # every AArch64 arch code has a shipped file: the private copy of this one is replaced and restored
 MODEL_KEYS = ["ports", "instruction_forms", "load_throughput", "store_throughput", "load_throughput_default",
               "store_throughput_default", "load_latency", "load_throughput_multiplier", "store_throughput_multiplier"]
+ISA_CFG = {
+    "x86": {"op": "e2e.x86", "isa_arg": "x86", "syn_arch": SYN_ARCH},
+    "aarch64": {"op": "e2e.a64", "isa_arg": "aarch64", "syn_arch": SYN_ARCH_A64},
+}
 LAT = [0.0, 1.0, 1.0, 2.0, 3.0, 4.0, 0.5, 6.0, 2.5]
 CYC = [0.25, 0.5, 1.0, 1.0, 1.0, 1.5, 2.0, 3.0]
 
@@ -129,7 +142,7 @@ def synthetic_model(rng):
     return m
 
 
-def install_model(ctx, model):
+def install_model(ctx, model, arch=SYN_ARCH):
     from osaca.semantics import MachineModel
 
     import ruamel.yaml
@@ -137,7 +150,7 @@ def install_model(ctx, model):
     # `Frontend` loads the model lazily: it reads the file up to the line `instruction_forms:` -- that key goes last
     y = ruamel.yaml.YAML(typ="safe")
     y.default_flow_style = False
-    path = os.path.join(ctx.env.data, SYN_ARCH + ".yml")
+    path = os.path.join(ctx.env.data, arch + ".yml")
     with open(path, "w") as f:
         y.dump({k: v for k, v in model.items() if k != "instruction_forms"}, f)
         y.dump({"instruction_forms": model["instruction_forms"]}, f)
@@ -145,13 +158,15 @@ def install_model(ctx, model):
     return path
 
 
-def restrict_model(raw, mnemonics):
+def restrict_model(raw, mnemonics, isa="x86"):
     """a shipped model cut down to the forms a file with these mnemonics can reach"""
     want = set()
     for mn in mnemonics:
         want.add(mn.upper())
-        if mn and mn[-1] in "bswlqt":
+        if isa == "x86" and mn and mn[-1] in "bswlqt":
             want.add(mn[:-1].upper())
+        if isa != "x86" and "." in mn:
+            want.add(mn.split(".")[0].upper())
     forms = []
     for f in raw.get("instruction_forms") or []:
         n = f.get("name")
@@ -160,6 +175,173 @@ def restrict_model(raw, mnemonics):
             forms.append(f)
     out = {k: raw[k] for k in MODEL_KEYS if k in raw}
     out["instruction_forms"] = forms
+    return out
+
+
+def has_alternatives(model):
+    """entries whose `port_pressure` is a dict of alternatives are outside the model's domain"""
+    return any(isinstance(f.get("port_pressure"), dict) for f in model.get("instruction_forms") or [])
+
+
+# --------------------------------------------------------------------------- AArch64 models
+# mnemonics of dgenc.gen_a64_kernel / gen_memdep_a64 with forms they can match (directly, through the `.`-suffix
+# fall-back, or as the register form of a load/store composition: the memory operand becomes the register wildcard)
+A64_MEM = "mem"
+A64_VOCAB = {
+    "add": [("x", "x", "x"), ("w", "w", "w"), ("x", "x", "imd"), ("w", "w", "imd")],
+    "sub": [("x", "x", "x"), ("w", "w", "w"), ("x", "x", "imd"), ("w", "w", "imd")],
+    "adds": [("x", "x", "x"), ("w", "w", "w"), ("x", "x", "imd"), ("w", "w", "imd")],
+    "subs": [("x", "x", "x"), ("w", "w", "w"), ("x", "x", "imd"), ("w", "w", "imd")],
+    "mul": [("x", "x", "x"), ("w", "w", "w")], "and": [("x", "x", "x"), ("w", "w", "w")],
+    "orr": [("x", "x", "x"), ("w", "w", "w")], "eor": [("x", "x", "x"), ("w", "w", "w")],
+    "mov": [("x", "x")], "cmp": [("x", "x"), ("w", "imd")],
+    "fadd": [("d", "d", "d"), ("s", "s", "s"), ("v.d", "v.d", "v.d")],
+    "fmul": [("d", "d", "d"), ("s", "s", "s"), ("v.d", "v.d", "v.d")],
+    "fsub": [("d", "d", "d"), ("s", "s", "s")], "fmla": [("v.d", "v.d", "v.d")], "fmadd": [("d", "d", "d", "d")],
+    "ldr": [("d", "x"), ("q", "x"), ("x", "x"), ("d", A64_MEM), ("x", A64_MEM)],
+    "str": [("d", "x"), ("q", "x"), ("x", "x"), ("d", A64_MEM), ("q", A64_MEM)],
+    "ldp": [("d", "d", "x"), ("d", "d", A64_MEM)], "stp": [("d", "d", "x"), ("d", "d", A64_MEM)],
+    "ld1": [("v.d", "v.d", "x")], "st1": [("v.d", "v.d", "x")],
+    "b": [("id",)], "bne": [("id",)], "csel": [("x", "x", "x", "cc")], "prfm": [("prf", "x")],
+}
+
+
+def a64_operand_of(rng, kind):
+    if kind == "imd":
+        return {"class": "immediate", "imd": "int"}
+    if kind == "id":
+        return {"class": "identifier"}
+    if kind == "cc":
+        return {"class": "condition", "ccode": "*"}
+    if kind == "prf":
+        return {"class": "prfop", "type": "*", "target": "*", "policy": "*"}
+    if kind == A64_MEM:
+        pre, post = rng.choice([(False, False), (False, False), (True, False), (False, True), ("*", "*")])
+        return {"class": "memory", "base": rng.choice(["x", "*"]), "offset": rng.choice(["*", "*", "imd", None]),
+                "index": rng.choice(["*", "*", None]), "scale": rng.choice(["*", "*", 1]), "pre_indexed": pre, "post_indexed": post}
+    if kind.startswith("v."):
+        return {"class": "register", "prefix": "v", "shape": kind[2:]}
+    return {"class": "register", "prefix": kind}
+
+
+def synthetic_model_a64(rng):
+    """a c07models AArch64 model, every number exactly representable, plus forms for a random part of A64_VOCAB"""
+    m = M.random_model(rng, "aarch64", n_forms=rng.choice([8, 12, 16]), tables=True, missing=rng.random() < 0.3, role_prob=0.5)
+    ports = m["ports"]
+    for f in m["instruction_forms"]:
+        f["port_pressure"] = _exact_uops(rng, f["port_pressure"])
+        f["throughput"] = _num(f["throughput"], rng, CYC)
+        f["latency"] = _num(f["latency"], rng, LAT)
+    for key in ("load_throughput", "store_throughput"):
+        for row in m[key]:
+            row["port_pressure"] = _exact_uops(rng, row["port_pressure"])
+    for key in ("load_throughput_default", "store_throughput_default"):
+        m[key] = _exact_uops(rng, m[key])
+    m["load_latency"] = {k: (None if v is None else float(v)) for k, v in m["load_latency"].items()}
+    for key in ("load_throughput_multiplier", "store_throughput_multiplier"):
+        if key in m:
+            m[key] = {k: float(v) for k, v in m[key].items()}
+    if rng.random() < 0.75:
+        # no missing register-type keys (a missing key is a KeyError of `assign_tp_lt` that ends the whole run: kept for a quarter)
+        for t in ["w", "x", "b", "h", "s", "d", "q", "v", "z", "p"]:
+            m["load_latency"].setdefault(t, float(rng.choice([4.0, 5.0, 6.0])))
+            for key in ("load_throughput_multiplier", "store_throughput_multiplier"):
+                if key in m:
+                    m[key].setdefault(t, float(rng.choice([1.0, 2.0, 0.5])))
+    voc = []
+    for name, sigs in A64_VOCAB.items():
+        if rng.random() < 0.15:
+            continue                                        # this mnemonic is unknown to the model
+        for sig in sigs:
+            if rng.random() < (0.5 if A64_MEM in sig else 0.12):
+                continue
+            tp, lat, pp = M.payload(rng, ports, missing=rng.random() < 0.1)
+            written = name + ".ne" if name == "b" and rng.random() < 0.5 else name       # `b.ne` has an entry of its own, or falls back to `b`
+            form = {"name": M.rand_case(rng, written), "operands": [a64_operand_of(rng, k) for k in sig], "throughput": _num(tp, rng, CYC),
+                    "latency": _num(lat, rng, LAT), "port_pressure": _exact_uops(rng, pp)}
+            voc.append(form)
+            if rng.random() < 0.1:
+                tp2, lat2, pp2 = M.payload(rng, ports, missing=False)      # exact duplicate: the first one in file order wins
+                voc.append(dict(form, throughput=_num(tp2, rng, CYC), latency=_num(lat2, rng, LAT), port_pressure=_exact_uops(rng, pp2)))
+    pos = rng.randrange(len(m["instruction_forms"]) + 1)
+    m["instruction_forms"][pos:pos] = voc
+    m["store_to_load_forward_latency"] = float(rng.choice([0.0, 0.0, 2.0, 4.0]))
+    m["p_index_latency"] = float(rng.choice([1.0, 1.0, 0.0, 2.0, 3.0]))
+    m["arch_code"] = SYN_ARCH_A64.upper()
+    return m
+
+
+A64_CHAIN = ["ldr d1, [x2], #8", "fadd d3, d1, d4", "ldr d5, [x2, #16]!", "fmul d6, d5, d3", "str d6, [x7, x8, lsl #3]", "add x8, x8, #1",
+             "zzunknown x2, x9", "ld1 {v0.2d, v1.2d}, [x4], #32", "fmla v2.2d, v0.2d, v1.2d", "st1 {v2.2d - v3.2d}, [x5]",
+             "stp d6, d3, [x7, #-16]!", "ldp d8, d9, [x7], #16", "subs x9, x9, #1", "csel x10, x9, x8, ne", "prfm pldl1keep, [x2, #64]",
+             "b.ne .L1"]
+
+
+def gen_scaledep_a64(rng):
+    """a store and a load through `[base, index, <shift> #s]` whose addresses coincide only if the scale is `2 ** s`: the index
+    moves by k, the base by -k * 2**s (both with known register changes: `add`/`sub` with an immediate)"""
+    b, i, o = rng.sample([1, 2, 3, 4, 5, 6, 7], 3)
+    s_ = rng.choice([0, 1, 2, 3, 3, 3, 4])
+    k = rng.choice([1, 2, 4])
+    ext = rng.choice(["lsl", "lsl", "sxtx"])
+    addr = "[x%d, x%d, %s #%d]" % (b, i, ext, s_)
+    lines = ["str d1, " + addr, "add x%d, x%d, #%d" % (i, i, k)]
+    if rng.random() < 0.85:
+        lines.append("sub x%d, x%d, #%d" % (b, b, k << s_))
+    if rng.random() < 0.3:
+        lines.append("fadd d4, d4, d5")
+    lines += [rng.choice(["ldr d2, ", "ldr x%d, " % o]) + addr, "fadd d3, d2, d2" if rng.random() < 0.7 else "add x9, x%d, x%d" % (o, o)]
+    if rng.random() < 0.4:
+        lines.append("ldr d6, [x%d, x%d, lsl #0]" % (b, i))       # scale 2 ** 0 = 1: matches the entries that declare scale 1
+    return lines
+
+
+def glue_domain_a64(parser, line):
+    """is the parsed line inside the domain of the AArch64 glue (Model/Glue.lean): every memory operand has no offset or an
+    integer offset, every post-index is a plain number; None = the parser rejects the line"""
+    try:
+        f = parser.parse_line(line, 1)
+    except Exception:  # noqa
+        return None
+    for o in f.operands or []:
+        if type(o).__name__ == "MemoryOperand":
+            off = o.offset
+            if off is not None and not (type(off).__name__ == "ImmediateOperand" and isinstance(off.value, int)):
+                return False
+            po = o.post_indexed
+            if po is not False and not (isinstance(po, dict) and set(po) == {"value"} and isinstance(po["value"], int)):
+                return False
+            if not isinstance(o.scale, int):
+                return False
+    return True
+
+
+def body_for_a64(rng, model, parser):
+    kind = rng.choice(["dgenc", "dgenc", "mixed", "synth", "memdep", "chain", "scaledep"])
+    if kind == "dgenc":
+        body = dgenc.gen_a64_kernel(rng, rng.randint(2, 10), mem=True, npool=rng.choice([2, 3, 4]))
+    elif kind == "memdep":
+        body = dgenc.gen_memdep_a64(rng)[0]
+    elif kind == "scaledep":
+        body = gen_scaledep_a64(rng)
+    elif kind == "chain":
+        a = rng.randrange(0, 6)
+        body = A64_CHAIN[a:a + rng.randrange(3, 9)]
+    else:
+        body = M.instructions_for(rng, "aarch64", model, rng.randint(2, 8))
+        if kind == "mixed":
+            body += dgenc.gen_a64_kernel(rng, rng.randint(1, 5), mem=True, npool=2)
+            rng.shuffle(body)
+    out = []
+    for b in body:
+        d = glue_domain_a64(parser, b)
+        if d is False:
+            continue                         # identifier / float offset, symbolic post-index: outside the glue's domain
+        if d is None and rng.random() < 0.97:
+            continue
+        out.append(b)
+    if rng.random() < 0.3:
+        out.insert(rng.randrange(len(out) + 1), "zzunknown%d x0, x3" % rng.randrange(3))
     return out
 
 
@@ -282,6 +464,9 @@ def compare_case(ctx, c, reply, st):
     """-> description of the first disagreement, or None"""
     res = c["res"]
     head = reply.split(" ")[0]
+    if head == "sem-error" and reply.split(" ")[-1] == "unsupported":
+        st["outside_domain"] = st.get("outside_domain", 0) + 1      # a value outside the model (float immediate under an operation)
+        return None
     if "error" in res:
         st["impl_errors"] += 1
         if head in ("parse-error", "sem-error", "empty", "badlines", "raise", "badisa"):
@@ -324,18 +509,19 @@ def compare_case(ctx, c, reply, st):
     return None
 
 
-def variants_of(rng, body):
+def variants_of(rng, body, isa="x86"):
     from harness.props import c11 as C
 
-    vs = C.build_variants(rng, "x86", body, shift=(rng.random() < 0.1))
+    vs = C.build_variants(rng, isa, body, shift=(rng.random() < 0.1))
     pick = [v for v in vs if v[0] in ("marked", "body-only")] + rng.sample([v for v in vs if v[0] not in ("marked", "body-only")], 2)
     if rng.random() < 0.15:
         pick.append(("lines-empty", vs[0][1], "%d" % (len(vs[0][1]) + 7), []))
     return pick
 
 
-def run_cases(ctx, arch, ymodel, stlf, pidx, files, st, tag):
+def run_cases(ctx, arch, ymodel, stlf, pidx, files, st, tag, isa="x86"):
     """files: [(variant name, file text, --lines or None, flag_deps, ignore_unknown)]"""
+    cfg = ISA_CFG[isa]
     work = os.path.join(ctx.env.work, "e2e")
     os.makedirs(work, exist_ok=True)
     cases, reqs = [], []
@@ -349,10 +535,10 @@ def run_cases(ctx, arch, ymodel, stlf, pidx, files, st, tag):
             version, fname, archname, stamp = header_bits(res["text"])
         else:
             version, fname, archname, stamp = "", path, arch.upper(), ""
-        mode = ("L", spec) if spec is not None else ("M", "x86")
-        reqs.append(" ".join(["e2e.x86", esc(ymodel), esc(stlf), esc(pidx), esc(mode[0]), esc(mode[1]), esc("1" if fd else "0"),
+        mode = ("L", spec) if spec is not None else ("M", cfg["isa_arg"])
+        reqs.append(" ".join([cfg["op"], esc(ymodel), esc(stlf), esc(pidx), esc(mode[0]), esc(mode[1]), esc("1" if fd else "0"),
                               esc("1" if iu else "0"), esc(version), esc(fname), esc(archname), esc(stamp), esc(text)]))
-        cases.append({"variant": vname, "file": text, "lines_arg": spec, "flag_deps": fd, "ignore_unknown": iu, "res": res})
+        cases.append({"variant": vname, "file": text, "lines_arg": spec, "flag_deps": fd, "ignore_unknown": iu, "res": res, "isa": isa})
     replies = ctx.driver.ask(reqs) if reqs else []
     for c, rep in zip(cases, replies):
         st["runs"] += 1
@@ -363,87 +549,131 @@ def run_cases(ctx, arch, ymodel, stlf, pidx, files, st, tag):
         if d:
             st["disagreements"] += 1
             if st["disagreements"] <= 4:
-                ctx.correspondence_break("e2e", {"where": tag, "variant": c["variant"], "lines_arg": c["lines_arg"],
+                ctx.correspondence_break("e2e", {"where": tag, "isa": isa, "variant": c["variant"], "lines_arg": c["lines_arg"],
                                                  "flag_deps": c["flag_deps"], "ignore_unknown": c["ignore_unknown"],
                                                  "file": c["file"][:1500], "difference": d})
 
 
-def run_e2e_correspondence(ctx, volume, shipped=("zen2", "spr"), shipped_volume=None):
-    """`volume` synthetic models x 2-3 kernels x 4-5 variants, and `shipped_volume` (default: `volume`) kernels on each of
-    the shipped models"""
+def _mnemonics(parser, lines, into):
+    for l in lines:
+        try:
+            f = parser.parse_line(l, 1) if l.strip() else None
+            if f is not None and f.mnemonic:
+                into.add(f.mnemonic)
+        except Exception:  # noqa
+            pass
+
+
+def run_e2e_correspondence(ctx, volume, shipped=("zen2", "spr"), shipped_volume=None, a64_volume=None, a64_shipped=("tx2", "a64fx"),
+                           a64_shipped_volume=None):
+    """x86: `volume` synthetic models x 2-3 kernels x 4-5 variants, and `shipped_volume` (default: `volume`) kernels on each of
+    the shipped models; AArch64: `a64_volume` (default: `volume`) synthetic models and `a64_shipped_volume` (default:
+    `shipped_volume`) kernels on each of `a64_shipped`"""
     import warnings
 
     warnings.filterwarnings("ignore")
-    from osaca.parser import ParserX86ATT
-
-    parser = ParserX86ATT()
-    keys = ["files", "runs", "compared", "disagreements", "impl_errors", "errors_agreed", "edges", "cycles", "lines",
-            "unknown_lines", "memory_lines", "reports_equal"]
-    st = {k: 0 for k in keys}
-    # ---- (a) synthetic models
-    for mi in range(volume):
-        rng = random.Random(ctx.rng.randrange(1 << 62))
-        model = synthetic_model(rng)
-        try:
-            install_model(ctx, model)
-        except Exception as e:  # noqa
-            raise core.InfraError("cannot install the synthetic model: %s" % e)
-        ymodel = pressure.yenc({k: model[k] for k in MODEL_KEYS if k in model})
-        stlf = core.frac(float(model.get("store_to_load_forward_latency", 0.0)))
-        files = []
-        for _ in range(rng.choice([2, 3])):
-            body = body_for(rng, model, parser)
-            if not any(b.strip() for b in body):
-                continue
-            for vname, lines, spec, _idx in variants_of(rng, body):
-                text = "\n".join(lines) + ("\n" if rng.random() < 0.8 else "")
-                files.append((vname, text, spec, rng.random() < 0.3, rng.random() < 0.5))
-        run_cases(ctx, SYN_ARCH, ymodel, stlf, core.frac(1.0), files, st, "synthetic model %d" % mi)
-        ctx.count("e2e_synthetic_models")
-    # ---- (b) shipped models restricted to the reachable entries
+    from osaca.parser import ParserAArch64, ParserX86ATT
     from osaca.semantics import MachineModel
 
-    for arch in shipped:
-        if not os.path.exists(os.path.join(ctx.env.data, arch + ".yml")):
-            continue
-        raw = pressure.load_raw(arch)
-        mm = MachineModel(arch=arch)
-        stlf, pidx = dgenc.model_params(mm)
-        for ki in range(volume if shipped_volume is None else shipped_volume):
-            rng = random.Random(ctx.rng.randrange(1 << 62))
-            body = [b for b in dgenc.gen_x86_kernel(rng, rng.randint(3, 10), mem=True, npool=rng.choice([2, 3, 4]))
-                    if not re.search(r"[A-Za-z_.][\w.]*\(", b)]
-            if rng.random() < 0.5:
-                body.insert(rng.randrange(len(body) + 1), "zzunknown %rax, %rcx")
-            if not any(b.strip() for b in body):
-                continue
-            mns = set()
-            for b in body:
+    keys = ["files", "runs", "compared", "disagreements", "impl_errors", "errors_agreed", "edges", "cycles", "lines",
+            "unknown_lines", "memory_lines", "reports_equal"]
+    total = {k: 0 for k in keys}
+    if shipped_volume is None:
+        shipped_volume = volume
+    plan = [("x86", ParserX86ATT(), volume, shipped, shipped_volume),
+            ("aarch64", ParserAArch64(), volume if a64_volume is None else a64_volume, a64_shipped,
+             shipped_volume if a64_shipped_volume is None else a64_shipped_volume)]
+    for isa, parser, vol, ship, svol in plan:
+        st = {k: 0 for k in keys}
+        st["files"] = total["files"]
+        x86 = isa == "x86"
+        syn_arch = ISA_CFG[isa]["syn_arch"]
+        # ---- synthetic models
+        syn_path = os.path.join(ctx.env.data, syn_arch + ".yml")
+        saved = open(syn_path, "rb").read() if os.path.exists(syn_path) else None
+        try:
+            for mi in range(vol):
+                rng = random.Random(ctx.rng.randrange(1 << 62))
+                model = synthetic_model(rng) if x86 else synthetic_model_a64(rng)
                 try:
-                    f = parser.parse_line(b, 1)
-                    if f.mnemonic:
-                        mns.add(f.mnemonic)
-                except Exception:  # noqa
-                    pass
-            files = []
-            for vname, lines, spec, _idx in variants_of(rng, body)[:3]:
-                for l in lines:
-                    try:
-                        f = parser.parse_line(l, 1) if l.strip() else None
-                        if f is not None and f.mnemonic:
-                            mns.add(f.mnemonic)
-                    except Exception:  # noqa
-                        pass
-                files.append((vname, "\n".join(lines) + "\n", spec, rng.random() < 0.3, rng.random() < 0.5))
-            small = restrict_model(raw, mns)
-            ymodel = pressure.yenc(small)
-            run_cases(ctx, arch, ymodel, stlf, pidx, files, st, "shipped model %s (restricted to %d forms)" % (arch, len(small["instruction_forms"])))
-        ctx.count("e2e_shipped_models")
-    for k, v in st.items():
-        ctx.count("e2e_" + k, v)
-    ctx.cov["e2e"] = dict(st)
-    ctx.log("e2e (file text -> report inside the model): %d runs, %d analyses compared (%d lines, %d memory-composed or load/store, "
-            "%d unknown, %d edges, %d cycles), %d reports byte-identical, %d agreed error outcomes, %d disagreements"
-            % (st["runs"], st["compared"], st["lines"], st["memory_lines"], st["unknown_lines"], st["edges"], st["cycles"],
-               st["reports_equal"], st["errors_agreed"], st["disagreements"]))
-    return st
+                    install_model(ctx, model, syn_arch)
+                except Exception as e:  # noqa
+                    raise core.InfraError("cannot install the synthetic model: %s" % e)
+                ymodel = pressure.yenc({k: model[k] for k in MODEL_KEYS if k in model})
+                stlf = core.frac(float(model.get("store_to_load_forward_latency", 0.0)))
+                pidx = core.frac(float(model.get("p_index_latency", 1.0)))
+                files = []
+                for _ in range(rng.choice([2, 3])):
+                    body = body_for(rng, model, parser) if x86 else body_for_a64(rng, model, parser)
+                    if not any(b.strip() for b in body):
+                        continue
+                    for vname, lines, spec, _idx in variants_of(rng, body, isa):
+                        text = "\n".join(lines) + ("\n" if rng.random() < 0.8 else "")
+                        files.append((vname, text, spec, rng.random() < 0.3, rng.random() < 0.5))
+                run_cases(ctx, syn_arch, ymodel, stlf, pidx, files, st, "synthetic %s model %d" % (isa, mi), isa)
+                ctx.count("e2e_synthetic_models" if x86 else "e2e_a64_synthetic_models")
+        finally:
+            # the private copy of the arch file the synthetic models replaced
+            if vol:
+                MachineModel._runtime_cache.pop(syn_path, None)
+                if saved is not None:
+                    with open(syn_path, "wb") as f:
+                        f.write(saved)
+                elif os.path.exists(syn_path):
+                    os.remove(syn_path)
+        # ---- shipped models restricted to the reachable entries
+        for arch in ship:
+            if not os.path.exists(os.path.join(ctx.env.data, arch + ".yml")):
+                continue
+            raw = pressure.load_raw(arch)
+            mm = MachineModel(arch=arch)
+            stlf, pidx = dgenc.model_params(mm)
+            for ki in range(svol):
+                rng = random.Random(ctx.rng.randrange(1 << 62))
+                if x86:
+                    body = [b for b in dgenc.gen_x86_kernel(rng, rng.randint(3, 10), mem=True, npool=rng.choice([2, 3, 4]))
+                            if not re.search(r"[A-Za-z_.][\w.]*\(", b)]
+                    unknown = "zzunknown %rax, %rcx"
+                else:
+                    gen = rng.choice(["dgenc", "dgenc", "memdep", "chain", "scaledep"])
+                    if gen == "dgenc":
+                        body = dgenc.gen_a64_kernel(rng, rng.randint(3, 10), mem=True, npool=rng.choice([2, 3, 4]))
+                    elif gen == "memdep":
+                        body = dgenc.gen_memdep_a64(rng)[0]
+                    elif gen == "scaledep":
+                        body = gen_scaledep_a64(rng)
+                    else:
+                        a = rng.randrange(0, 6)
+                        body = A64_CHAIN[a:a + rng.randrange(3, 9)]
+                    body = [b for b in body if glue_domain_a64(parser, b)]
+                    unknown = "zzunknown x0, x3"
+                if rng.random() < 0.5:
+                    body.insert(rng.randrange(len(body) + 1), unknown)
+                if not any(b.strip() for b in body):
+                    continue
+                mns = set()
+                _mnemonics(parser, body, mns)
+                files = []
+                for vname, lines, spec, _idx in variants_of(rng, body, isa)[:3]:
+                    _mnemonics(parser, lines, mns)
+                    files.append((vname, "\n".join(lines) + "\n", spec, rng.random() < 0.3, rng.random() < 0.5))
+                small = restrict_model(raw, mns, isa)
+                if has_alternatives(small):
+                    ctx.count("e2e_skipped_port_alternatives")
+                    continue
+                ymodel = pressure.yenc(small)
+                run_cases(ctx, arch, ymodel, stlf, pidx, files, st,
+                          "shipped model %s (restricted to %d forms)" % (arch, len(small["instruction_forms"])), isa)
+            ctx.count("e2e_shipped_models" if x86 else "e2e_a64_shipped_models")
+        pre = "e2e_" if x86 else "e2e_a64_"
+        st["files"] -= total["files"]
+        for k, v in st.items():
+            ctx.count(pre + k, v)
+            if k in total:
+                total[k] += v
+        ctx.cov["e2e" if x86 else "e2e_a64"] = dict(st)
+        ctx.log("e2e %s (file text -> report inside the model): %d runs, %d analyses compared (%d lines, %d memory-composed or load/store, "
+                "%d unknown, %d edges, %d cycles), %d reports byte-identical, %d agreed error outcomes, %d disagreements"
+                % (isa, st["runs"], st["compared"], st["lines"], st["memory_lines"], st["unknown_lines"], st["edges"], st["cycles"],
+                   st["reports_equal"], st["errors_agreed"], st["disagreements"]))
+    return total
